@@ -2,7 +2,7 @@
 import itertools, json, os
 from collections import Counter
 
-PROPS = ["C19/Props.v", "C19/PropsFp.v"]
+PROPS = ["C19/Props.v", "C19/PropsFp.v", "C19/PropsR3.v"]
 META = dict(
     text="Rocq theorems over an executable transcription of pkg/obikmer (k-mer words as N, `mod 4^k` exactly where the code masks): "
          "(1) KmerMap.NormalizedKmerSlice, as repaired, returns for every window of k unambiguous bases min(k-mer, reverse-complement k-mer) "
@@ -21,28 +21,50 @@ META = dict(
          "single sequence comes back unchanged IFF it has no repeated (k-1)-mer (exact condition, both directions proved); (4) Count4Mer "
          "counts exactly the 4-mer windows (modulo 2^16); (5) the tables iupac / revcompnuc / decode / __single_base_code__ are REGENERATED "
          "from the current build before every Coq build and the theorems over them (model = tables, expansion of each IUPAC letter = its base "
-         "set, complement consistency and involution, decode inverts) are re-proved by the kernel on every run. On every run the real "
+         "set, complement consistency and involution, decode inverts) are re-proved by the kernel on every run. "
+         "(6, round 3, Model3.v / PropsR3.v) LongestConsensus with 0 < min_cov <= 1 (obiconsensus --low-coverage) returns the spelling of the heaviest walk without its "
+         "low-coverage ends - a walk again, never a panic, for every value obistats.Mode may pick -, min_cov > 1 is refuted (slice panic); a graph holding a "
+         "self-looping k-mer (poly-a = node 0, the 'no predecessor' value of HaviestPath) has a cycle, so node 0 never enters the search; FilterMinWeight keeps exactly the "
+         "nodes of weight >= min and never creates a cycle (sub-graphs of acyclic graphs are acyclic); the greedy walk MaxHead/MaxNext/MaxPath (BestConsensus) is a walk from a source, "
+         "terminates on acyclic graphs, is never heavier than HaviestPath's walk and can be strictly lighter (witness); KmerMap.Query depends on the multiset of canonical k-mers only, "
+         "hence answers alike for a sequence and its reverse complement on ANY index (width, k, sparse, maxoccurs), and on an index built without maxoccurs reports exactly "
+         "(shared k-mer pairs + 1) per reference, and with maxoccurs = m keeps exactly the k-mers occurring fewer than m times, each with its complete reference list; "
+         "HammingDistance (xor / fold / mask / popcount) is the number of differing bases among the k (k <= 31); every homopolymer k-mer is a self loop; Sum4Mer(Count4Mer(s)) = len(s) - 3 (no wrap below 65539 bases), "
+         "Index4mer lists under every code exactly the positions of its windows, as many as Count4Mer counts; Common4Mer is symmetric, bounded by both sums, Common4Mer(t,t) = Sum4Mer(t). On every run the real "
          "MakeDeBruijnGraph/Push/Weight/Nexts/Heads/HasCycle/HaviestPath/DecodePath/LongestConsensus, obiconsensus.BuildConsensus (k chosen by "
          "the tool, counts from the count attribute), NewKmerMap/NormalizedKmerSlice/KmerAsString (Uint64/128/256, k up to 128, sparse and "
-         "dense, both strands), KmerMap.Query as obikmersim uses it (Uint128, both strands) and Count4Mer run on boundary-biased and random "
+         "dense, both strands), KmerMap.Query as obikmersim uses it (Uint128, both strands) and Count4Mer - and, since round 3, the rest of the exported surface: "
+         "KmerSize/Len/MaxWeight/WeightSpectrum/WeightMode/WeightMean/Previouses/MaxNext/MaxHead/MaxPath/BestConsensus/LongestPath/FilterMinWeight/HammingDistance/Gml/WriteGml, "
+         "Nexts/Previouses outside the graph, LongestConsensus(min_cov), the buffer variant of NormalizedKmerSlice, NewKmerMap(maxoccurs), "
+         "FilterMinCount/Len/Sequences/Max, Index4mer/Sum4Mer/Common4Mer, BuildConsensus with 0/1 read, --kmer-size, --low-coverage, --save-graph - run on boundary-biased and random "
          "cases against a direct Python oracle, and the Coq model (including the transcribed algorithms: verdict, ACTUAL path, decoding, "
-         "consensus, key strings) is evaluated by vm_compute on the same cases.",
+         "consensus, key strings, trimmed consensus, filtered graph, greedy walk, Hamming distance = number of differing bases, index and match counts, 4-mer positions) is evaluated by vm_compute on the same cases. "
+         "The COMMANDS obiconsensus (denoise and --cluster modes, --kmer-size, --low-coverage, --save-graph, several samples) and obikmersimcount / obikmermatch (-k, --sparse, -M, -m, --self) run on generated files (several samples, reads shared by samples through merged_sample, exactly 4 and exactly 5 neighbours, equal cluster weights); "
+         "every record they write is compared with the in-process run of the same reads, which is itself judged by the oracle and the model.",
     note="Trusted: Coq kernel + vm_compute; harness, generators and the Python oracle; obifp words in NormalizedKmerSlice modelled as N modulo "
          "2^width (the mask construction is tied to C20's limb model by theorem; shift counts are unbounded Z there: kmersize < 2^62); Go maps "
          "are association lists (lookup default = zero value) and their iteration orders are universally quantified in the theorems (the "
-         "correspondence evaluates the key-sorted order; the result does not depend on it); container/heap with Less = (<) on node ids is a "
+         "correspondence evaluates the key-sorted order; the result does not depend on it; where it does - MaxHead, obistats.Mode, WeightMode, LongestPath - an observation is accepted when some order produces it); container/heap with Less = (<) on node ids is a "
          "multiset whose Pop returns a minimum; Go int distances do not overflow (total weight < 2^63). A path that differs from the "
          "transcription but is a valid walk of the same maximal weight is NOT an alarm (the property allows any heaviest walk; counted in the "
          "evidence). Guards: counts >= 1, non-empty graph for HaviestPath (LongestConsensus guards it), 2k <= width, k = 2..31 for the "
-         "single-sequence clause (k = 1: every node has a self loop), min_cov = 0 in LongestConsensus (the coverage trimming uses float mode "
-         "statistics: not modelled), KmerMap.Query is oracle-only (shared canonical k-mers, same result for both strands). Known finding: "
-         "uint16 wrap of Count4Mer beyond 65535 occurrences.")
+         "single-sequence clause (k = 1: every node has a self loop); min_cov is a dyadic rational num/2^e (the float threshold uint(mode*min_cov+0.5) is then exact) and <= 1 in the theorem "
+         "(min_cov > 1 can panic in path[from:to]: modelled, refuted, not repaired: not a value the option is meant for). Known finding: "
+         "uint16 wrap of Count4Mer beyond 65535 occurrences. Outside the property (seen, not judged as violations): KmerMap.Query reports shared pairs + 1, so --min-shared-kmers m keeps references sharing m-1 pairs, "
+         "and --max-kmers M drops the k-mers occurring M times or more (not 'more than M'); BuildConsensus weighs reads by their TOTAL count, not by their count in the sample being denoised; "
+         "sequences with symbols outside the IUPAC alphabet make Push panic (nil table entry). "
+         "Not exercised: LCS4MerBounds / Error4MerBounds (no caller in the repository; bounds on alignments, not counts: nothing in the statement to judge them by); FastShiftFourMer (the 4-mer vote of the aligners: judged by C08); "
+         "obikmermatch beyond its candidate set (the alignment of the candidates and its attributes: C08/C09; obikmer_match_count / obikmer_match_id of every record written are judged); the two log.Warn branches of HaviestPath about node 0 and the sparseAt >= kmersize branch of NewKmerMap are unreachable "
+         "(theorem C19_acyclic_graph_has_no_zero_node; sparseAt = k/2 < k); progress bars, the GML file of the per-sample sequence graph (pkg/obigraph) and obiuniq --unique post-processing of obiconsensus.")
 TRUSTED = ["obifp Uint64/128/256 LeftShift/RightShift/And/Or/LessThan inside NormalizedKmerSlice are modelled by their exact meaning on N modulo 2^width (property C20); "
            "the masks of NewKmerMap are additionally computed over C20's proved limb model (C19/MaskFp.v) and proved equal to the N model",
            "Go map iteration order: graph nodes are compared as a key-sorted association list; HasCycle / Heads orders are universally quantified in the theorems",
            "container/heap (UInt64Heap, Less = <) is modelled as a multiset whose Pop returns a minimum",
            "Go int arithmetic of HaviestPath distances is modelled on unbounded N (no overflow: total weight < 2^63)",
-           "regenerated tables: the dump goes through the hook VerifTablesC19 (copies of the package variables) and tools/props/c19.py tables_source"]
+           "regenerated tables: the dump goes through the hook VerifTablesC19 (copies of the package variables) and tools/props/c19.py tables_source",
+           "float64(mode) * min_cov + 0.5 truncated to uint is modelled by exact rational arithmetic for dyadic min_cov = num / 2^e (exact in binary64 while mode * num < 2^52)",
+           "KmerMap.index map[T][]*BioSequence is an association list key -> reference numbers; sorting by pointer + grouping in Query is modelled as counting per reference",
+           "obialign.D1Or0 (edges of obiconsensus' sequence graph) is re-implemented in the Python oracle as edit distance <= 1 to predict the packs of reads"]
 
 VERIF = os.path.dirname(os.path.dirname(os.path.dirname(os.path.abspath(__file__))))
 TABLES_V = os.path.join(VERIF, "coq", "theories", "C19", "Gen", "Tables.v")
@@ -336,6 +358,9 @@ def check_dbg(c, o):
             sub = [s1[i:i + k - 1] for i in range(len(s1) - k + 2)]
             if (len(set(sub)) != len(sub)) != cyc:
                 fails.append("single sequence: repeated (k-1)-mer = %s but HasCycle = %s" % (len(set(sub)) != len(sub), cyc))
+    fails += check_dbg_x(c, o, obs_w, adj, heads, cyc)
+    if "expect_cons" in c and c["expect_cons"].get("savedgml") is not None:
+        fails += check_gml(c["expect_cons"]["savedgml"], k, obs_w, adj, "obiconsensus --save-graph (.gml)")
     if not obs_w:
         if not o["conserr"]:
             fails.append("consensus returned for an empty graph")
@@ -373,8 +398,17 @@ def check_dbg(c, o):
     if "expect_cons" in c:
         # the same reads went through obiconsensus.BuildConsensus (k estimated by the tool, counts from the count attribute)
         e = c["expect_cons"]
-        if e["consensus"] != spelled:
+        if e.get("cov"):
+            # --low-coverage: the tool's answer is LongestConsensus(min_cov) of the same graph, judged by check_dbg_x on this case
+            okc = cov_results(k, obs_w, path, e["cov"]["num"], e["cov"]["e"])
+            if ("seq", e["consensus"]) not in okc:
+                fails.append("obiconsensus.BuildConsensus (k=%d, low coverage %d/2^%d) returns %r, the trimmed heaviest path spells %s" % (
+                    k, e["cov"]["num"], e["cov"]["e"], e["consensus"], okc[:3]))
+        elif e["consensus"] != spelled:
             fails.append("obiconsensus.BuildConsensus (k=%d chosen by the tool) returns %r, the heaviest path spells %r" % (k, e["consensus"], spelled))
+        if e.get("conslen") is not None and (e["conslen"] != len(e["consensus"]) or e["consfgraph"] != len(obs_w)):
+            fails.append("obiconsensus attributes seq_length=%d filtered_graph_size=%d, consensus has %d bases, graph %d nodes" % (
+                e["conslen"], e["consfgraph"], len(e["consensus"]), len(obs_w)))
         if e["consgraph"] != len(obs_w) or e["consmaxw"] != max(obs_w.values()) or e["consw"] != sum(q["count"] for q in c["seqs"]):
             fails.append("obiconsensus attributes graph_size=%d max_occur=%d weight=%d, graph has %d nodes, max weight %d, total count %d" % (
                 e["consgraph"], e["consmaxw"], e["consw"], len(obs_w), max(obs_w.values()), sum(q["count"] for q in c["seqs"])))
@@ -390,6 +424,225 @@ def check_dbg(c, o):
             if o["consensus"] != t:
                 fails.append("single sequence without repeated k-mer is not returned unchanged: %r" % o["consensus"])
     return fails, key
+
+
+
+# ------------------------------------------------------------------ round 3: the rest of the DeBruijnGraph surface
+def spell(path, k):
+    return (dec(path[0], k) + "".join("acgt"[x & 3] for x in path[1:])) if path else ""
+
+
+def is_greedy(adj, wt, p):
+    """p follows a heaviest successor at every step and stops at a node without successor (MaxPath / LongestPath inner loop; which
+    of several equally heavy successors is taken depends on the order of Nexts: any of them is accepted)"""
+    if not p or any(x not in adj for x in p):
+        return False
+    for a, b in zip(p, p[1:]):
+        if b not in adj[a] or wt[b] != max(wt[z] for z in adj[a]):
+            return False
+    return not adj[p[-1]]
+
+
+def greedy_walks(adj, wt, h, cap=64):
+    """every greedy walk from h (ties branch); None when there are more than cap"""
+    done, todo = [], [[h]]
+    while todo:
+        p = todo.pop()
+        nx = adj[p[-1]]
+        if not nx:
+            done.append(p)
+            if len(done) > cap:
+                return None
+            continue
+        top = max(wt[z] for z in nx)
+        for z in nx:
+            if wt[z] == top:
+                todo.append(p + [z])
+        if len(todo) > 4 * cap:
+            return None
+    return done
+
+
+def cov_results(k, wt, path, num, e):
+    """LongestConsensus(id, num / 2^e) on the heaviest path `path` ([] = nil): the set of admissible answers, one per value
+    obistats.Mode may return (ties are broken by the iteration order of a Go map)"""
+    if not path:
+        return [("err", "")]
+    c = num / float(1 << e)
+    wp = [wt[x] for x in path]
+    cnt = Counter(wp)
+    top = max(cnt.values())
+    res = []
+    for m in sorted(v for v, n in cnt.items() if n == top):
+        mp = int(float(m) * c + 0.5)
+        frm = 0
+        for i, x in enumerate(path):
+            if wt[x] < mp:
+                frm = i + 1
+            else:
+                break
+        to = len(path)
+        for i in range(len(path) - 1, -1, -1):
+            if wt[path[i]] < mp:
+                to = i
+            else:
+                break
+        if frm > to:
+            res.append(("panic", ""))
+        else:
+            sp = spell(path[frm:to], k)
+            res.append(("seq", sp) if sp else ("err", ""))
+    return res
+
+
+def consx(o):
+    return ("panic", "") if o.get("panic") else ("err", "") if o.get("err") else ("seq", o.get("seq"))
+
+
+GML_NODE = None
+
+
+def parse_gml(txt):
+    """(nodes: id -> label or None, edges: list of (src, dst, char, weight, width))"""
+    import re
+    nodes = {}
+    for m in re.finditer(r'node \[ id "(\d+)"(?:\s*label "([a-z]*)")? \]', txt):
+        nodes[int(m.group(1))] = m.group(2)
+    edges = []
+    for m in re.finditer(r'edge \[ source "(\d+)"\s*target "(\d+)"\s*color "#00FF00"\s*label "(.)\[(\d+)\]"\s*graphics\s*\[\s*width\s*([0-9.]+)', txt):
+        edges.append((int(m.group(1)), int(m.group(2)), m.group(3), int(m.group(4)), float(m.group(5))))
+    return nodes, edges
+
+
+def check_gml(txt, k, wt, adj, what):
+    """the GML text describes the graph: node numbers follow the iteration order of a Go map, so nodes are identified by their
+    label (sources and sinks only carry one) and by their degrees"""
+    import math
+    fails = []
+    if not txt.startswith("graph [") or not txt.rstrip().endswith("]"):
+        return ["%s: not a GML graph" % what]
+    nodes, edges = parse_gml(txt)
+    preds = {x: [y for y in adj if x in adj[y]] for x in adj}
+    if sorted(nodes) != list(range(1, len(wt) + 1)):
+        fails.append("%s: %d nodes numbered %s.., graph has %d" % (what, len(nodes), sorted(nodes)[:3], len(wt)))
+        return fails
+    lab = sorted(l for l in nodes.values() if l is not None)
+    exp_lab = sorted(dec(x, k) for x in adj if not adj[x] or not preds[x])
+    if lab != exp_lab:
+        fails.append("%s: labelled nodes %s, sources and sinks are %s" % (what, lab[:6], exp_lab[:6]))
+    outd, ind = Counter(a for a, *_ in edges), Counter(b for _, b, *_ in edges)
+    got = [(nodes[a], nodes[b], ch, w, outd[a], ind[b]) for a, b, ch, w, _ in edges]
+    exp = [((dec(x, k) if not preds[x] else None), (dec(y, k) if not adj[y] else None), "acgt"[y & 3], min(wt[x], wt[y]), len(adj[x]), len(preds[y]))
+           for x in adj for y in adj[x]]
+    key = lambda t: tuple("" if v is None else v for v in map(str, t))
+    if sorted(got, key=key) != sorted(exp, key=key):
+        fails.append("%s: %d edges (label, weight, degrees) differ from the %d edges of the graph" % (what, len(got), len(exp)))
+    for a, b, ch, w, width in edges:
+        if abs(width - math.sqrt(w)) > 1e-5:
+            fails.append("%s: edge width %r for weight %d" % (what, width, w))
+            break
+    return fails
+
+
+def check_dbg_x(c, o, obs_w, adj, heads, cyc):
+    """the observations of c19r3.go for a graph case; obs_w / adj / heads: the graph as judged by check_dbg"""
+    x = o.get("x")
+    if x is None:
+        return ["round-3 observations missing"] if c.get("x") and not o.get("pathskipped") else []
+    k = c["k"]
+    fails = []
+    ws = list(obs_w.values())
+    if x["ksize"] != k or x["len"] != len(obs_w) or x["maxw"] != max(ws + [0]):
+        fails.append("KmerSize/Len/MaxWeight = %d/%d/%d, expected %d/%d/%d" % (x["ksize"], x["len"], x["maxw"], k, len(obs_w), max(ws + [0])))
+    if x["speclen"] != -1:
+        sp = {a: b for a, b in x.get("spectrum") or []}
+        if x["speclen"] != max(ws + [0]) + 1 or sp != dict(Counter(ws)):
+            fails.append("WeightSpectrum: %d cells %s, expected %d cells %s" % (x["speclen"], sorted(sp.items())[:5], max(ws + [0]) + 1, sorted(Counter(ws).items())[:5]))
+    cnt = Counter(w for w in ws if w > 1)
+    okmode = [w for w, n in cnt.items() if n == max(cnt.values())] if cnt else [0]
+    if x["wmode"] not in okmode:
+        fails.append("WeightMode = %d, most frequent weights > 1 are %s" % (x["wmode"], sorted(okmode)[:5]))
+    mean = (float(sum(ws)) / float(len(ws))) if ws else -1
+    if x["wmean"] != mean:
+        fails.append("WeightMean = %r, expected %r" % (x["wmean"], mean))
+    preds = {y: sorted(z for z in adj if y in adj[z]) for y in adj}
+    order = sorted(obs_w)
+    if len(x.get("nodes") or []) != len(order):
+        fails.append("per-node observations: %d for %d nodes" % (len(x.get("nodes") or []), len(order)))
+    else:
+        for y, n in zip(order, x.get("nodes") or []):
+            if sorted(int(z) for z in n["prevs"]) != preds[y]:
+                fails.append("Previouses(%s) = %s, expected %s" % (dec(y, k), n["prevs"], preds[y]))
+                break
+            bw = max([obs_w[z] for z in adj[y]] + [0])
+            got = None if n["maxnext"] is None else [int(v) for v in n["maxnext"]]
+            if (got is None) != (not adj[y]) or (got is not None and (got[0] not in adj[y] or obs_w[got[0]] != bw or got[1] != bw)):
+                fails.append("MaxNext(%s) = %s, heaviest successors weigh %d" % (dec(y, k), got, bw))
+                break
+    hw = max([obs_w[h] for h in heads] + [0])
+    tops = [h for h in heads if obs_w[h] == hw]
+    mh = x.get("maxhead")
+    if (mh is None) != (not heads) or (mh is not None and (int(mh[0]) not in tops or int(mh[1]) != hw)):
+        fails.append("MaxHead = %s, heaviest source nodes %s (weight %d)" % (mh, tops[:4], hw))
+    if x.get("greedy") != (not cyc):
+        fails.append("greedy walks run = %s on a graph with HasCycle = %s" % (x.get("greedy"), cyc))
+    if x.get("greedy") and not cyc:
+        wsum = lambda p: sum(obs_w[z] for z in p)
+        mp = [int(v) for v in x.get("maxpath") or []]
+        if not ((not heads and not mp) or (mp and mp[0] in tops and is_greedy(adj, obs_w, mp))):
+            fails.append("MaxPath = %s is not a greedy walk from a heaviest source" % mp[:8])
+        bc = consx(x["bestcons"])
+        if not heads:
+            okb = bc == ("err", "")
+        else:
+            bp = [enc(bc[1][i:i + k]) for i in range(len(bc[1]) - k + 1)] if bc[0] == "seq" else []
+            okb = bool(bp) and bp[0] in tops and is_greedy(adj, obs_w, bp) and spell(bp, k) == bc[1]
+        if not okb:
+            fails.append("BestConsensus = %s does not spell a greedy walk from a heaviest source" % (bc,))
+        allw = {h: greedy_walks(adj, obs_w, h) for h in heads}
+        for fld, lim in (("longest0", 0), ("longestl", c.get("lmax", 0))):
+            got = [int(v) for v in x.get(fld) or []]
+            if any(w is None for w in allw.values()):
+                ok = (not got) or (got[0] in heads and is_greedy(adj, obs_w, got))          # too many tied walks to enumerate
+            else:
+                # a walk longer than lim counts for nothing; the answer is the heaviest of one greedy walk per source
+                val = lambda w: 0 if (lim > 0 and len(w) > lim) else wsum(w)
+                if not got:
+                    ok = all(any(val(w) == 0 for w in ws) for ws in allw.values())
+                else:
+                    ok = got[0] in heads and got in allw[got[0]] and val(got) > 0 and all(any(val(w) <= val(got) for w in ws) for ws in allw.values())
+            if not ok:
+                fails.append("LongestPath(%d) = %s is not a heaviest greedy walk from a source" % (lim, got[:8]))
+    if c.get("minw", 0) > 0:
+        keep = {y: w for y, w in obs_w.items() if w >= c["minw"]}
+        got = {int(a): int(b) for a, b in x.get("filtered") or []}
+        if got != keep or x.get("filteredlen") != len(keep):
+            fails.append("FilterMinWeight(%d): %d nodes left, expected the %d nodes of weight >= %d" % (c["minw"], len(got), len(keep), c["minw"]))
+        elif x.get("filteredcyc") != has_cycle(graph_of(set(keep), k)):
+            fails.append("FilterMinWeight(%d): HasCycle = %s on the filtered graph" % (c["minw"], x.get("filteredcyc")))
+    path = [int(v) for v in o.get("path") or []] if not cyc and obs_w else []
+    for cv, got in zip(c.get("covs") or [], x.get("covs") or []):
+        exp = cov_results(k, obs_w, path, cv["num"], cv["e"]) if obs_w else [("err", "")]
+        if consx(got) not in exp:
+            fails.append("LongestConsensus(min_cov=%d/2^%d) = %s, expected %s" % (cv["num"], cv["e"], consx(got), exp[:3]))
+    if len(x.get("covs") or []) != len(c.get("covs") or []):
+        fails.append("LongestConsensus(min_cov): %d answers for %d values" % (len(x.get("covs") or []), len(c.get("covs") or [])))
+    for (a, b), got in zip(c.get("ham") or [], x.get("ham") or []):
+        a, b = int(a), int(b)
+        exp = sum(1 for i in range(k) if ((a >> (2 * i)) & 3) != ((b >> (2 * i)) & 3))
+        if got != exp:
+            fails.append("HammingDistance(%s, %s) = %d, the k-mers differ at %d positions" % (dec(a, k), dec(b, k), got, exp))
+    for v, pn, pp in zip(c.get("probe") or [], x.get("probenext") or [], x.get("probeprev") or []):
+        out = int(v) not in obs_w
+        if pn != out or pp != out:
+            fails.append("Nexts/Previouses(%s) panic = %s/%s, node in graph = %s" % (v, pn, pp, not out))
+    if c.get("gml"):
+        if not x.get("gml"):
+            fails.append("Gml() returned nothing")
+        else:
+            fails += check_gml(x["gml"], k, obs_w, adj, "Gml()")
+            fails += check_gml(x.get("gmlfile") or "", k, obs_w, adj, "WriteGml file")
+    return fails[:6]
 
 
 # ------------------------------------------------------------------ canonical k-mers oracle
@@ -437,6 +690,9 @@ def check_kmap(c, o, o_rc):
         if ob["kmersize"] != k or (ob["sparseat"] >= 0) != c["sparse"]:
             fails.append("%s: effective k = %d sparseAt = %d" % (tag, ob["kmersize"], ob["sparseat"]))
             continue
+        if c.get("buf") and not (ob.get("bufsame") and ob.get("ksizefn") == k and ob.get("idxlen") == 0):
+            fails.append("%s: NormalizedKmerSlice with a caller's buffer gives the same keys = %s; KmerSize() = %s, Len() of an empty index = %s" % (
+                tag, ob.get("bufsame"), ob.get("ksizefn"), ob.get("idxlen")))
         exp = expected_canon(k, c["sparse"], s)
         got = list(zip(obs_vals(ob), ob.get("strs") or []))
         if sorted(got) != sorted(exp):
@@ -490,6 +746,55 @@ def check_ksim(c, o):
         fails.append("Query(q): matches %s, shared canonical k-mers give %s" % (o.get("match"), exp))
     if o.get("matchrc") != exp:
         fails.append("Query(rc q): matches %s, Query(q) must give the same %s (strand invariance)" % (o.get("matchrc"), exp))
+    return fails + check_ksx(c, o, k)
+
+
+def expected_index(c, k):
+    """NewKmerMap(refs, k, sparse, maxoccurs): key -> reference numbers (Push appends while the list has at most maxoccurs
+    entries; afterwards the keys with maxoccurs entries or more are dropped)"""
+    mo = c.get("maxocc")
+    mo = -1 if mo is None else mo
+    idx = {}
+    for i, r in enumerate(c["refs"]):
+        for v, _ in expected_canon(k, c["sparse"], r):
+            l = idx.setdefault(v, [])
+            if mo == -1 or len(l) <= mo:
+                l.append(i)
+    if mo >= 0:
+        idx = {v: l for v, l in idx.items() if len(l) < mo}
+    return idx
+
+
+def check_ksx(c, o, k):
+    x = o.get("ksx")
+    if x is None:
+        return ["round-3 observations missing"] if c.get("x") else []
+    fails = []
+    idx = expected_index(c, k)
+    if x["idxlen"] != len(idx) or x["ksize"] != k:
+        fails.append("KmerMap.Len/KmerSize = %d/%d, expected %d keys of size %d" % (x["idxlen"], x["ksize"], len(idx), k))
+    ms = c.get("minshared")
+    ms = 1 if ms is None else ms
+    qs = [("q", c["s"], x["q"], None), ("rc(q)", rc(c["s"].lower()), x["qrc"], None)]
+    if x.get("self") is not None:
+        qs.append(("refs[%d] itself" % c["self"], c["refs"][c["self"]], x["self"], c["self"]))
+    for tag, q, ob, selfi in qs:
+        hits = Counter()
+        for v, _ in expected_canon(k, c["sparse"], q):
+            for i in idx.get(v, []):
+                hits[i] += 1
+        if selfi is not None:
+            hits.pop(selfi, None)         # Query skips the query sequence itself
+        exp = [hits[i] + 1 if hits[i] else -1 for i in range(len(c["refs"]))]
+        if ob["match"] != exp:
+            fails.append("Query(%s) with maxoccurs=%s: %s, the index gives %s" % (tag, c.get("maxocc"), ob["match"], exp))
+            continue
+        kept = [i for i, n in enumerate(exp) if n >= ms]
+        top = max([exp[i] for i in kept] + [0])
+        if ob["nmatch"] != len(kept) or ob["kept"] != kept:
+            fails.append("FilterMinCount(%d) after Query(%s): Len %d, Sequences %s, expected %s" % (ms, tag, ob["nmatch"], ob["kept"], kept))
+        elif (ob["max"] == -1) != (not kept) or (kept and (exp[ob["max"]] != top or ob["maxn"] != top)):
+            fails.append("Max() after Query(%s) = reference %d (count %d), best count is %d" % (tag, ob["max"], ob["maxn"], top))
     return fails
 
 
@@ -506,17 +811,325 @@ def expected_c4(s):
     return dict(t)
 
 
+def codes4(s):
+    s = s.lower()
+    code = {"a": 0, "c": 1, "g": 2, "t": 3, "u": 3}
+    return [sum(code.get(ch, 0) << (2 * (3 - j)) for j, ch in enumerate(s[i:i + 4])) for i in range(len(s) - 3)]
+
+
+def check_c4x(c, o):
+    """Index4mer (positions of every 4-mer), Sum4Mer (number of 4-mers), Common4Mer (size of the multiset intersection)"""
+    x = o.get("c4x")
+    if x is None:
+        return ["round-3 observations missing"] if c.get("x") else []
+    fails = []
+    pos = {}
+    for i, v in enumerate(codes4(c["s"])):
+        pos.setdefault(v, []).append(i)
+    got = {l[0]: l[1:] for l in x.get("index") or []}
+    if got != pos or x["cells"] != 256:
+        bad = [v for v in set(got) | set(pos) if got.get(v) != pos.get(v)][:3]
+        fails.append("Index4mer: %d cells, positions differ for %s" % (x["cells"], ", ".join("%s impl=%s expected=%s" % (dec(v, 4), got.get(v), pos.get(v)) for v in bad)))
+    t1 = {a: b % 65536 for a, b in expected_c4(c["s"]).items()}
+    t2 = {a: b % 65536 for a, b in expected_c4(c.get("s2", "")).items()}
+    com = sum(min(n, t2.get(a, 0)) for a, n in t1.items())
+    exp = dict(sum=sum(t1.values()), sum2=sum(t2.values()), common=com, commonr=com, self=sum(t1.values()))
+    gotv = {f: x[f] for f in exp}
+    if gotv != exp:
+        fails.append("Sum4Mer/Common4Mer: %s, expected %s" % (gotv, exp))
+    return fails
+
+
 def check_c4(c, o):
     if o["kind"] != "c4":
         return ["Count4Mer %s" % o["kind"]], None
     got = {a: b for a, b in o.get("table") or []}
     exp = expected_c4(c["s"])
+    xf = check_c4x(c, o)
+    if xf:
+        return xf, None
     if got == exp:
         return [], None
     if any(v > 65535 for v in exp.values()) and got == {a: v % 65536 for a, v in exp.items() if v % 65536}:
         return [], "count4-uint16-wrap"
     bad = [x for x in set(got) | set(exp) if got.get(x, 0) != exp.get(x, 0)][:4]
     return ["4-mer counts differ: " + ", ".join("%s impl=%d expected=%d" % (dec(x, 4), got.get(x, 0), exp.get(x, 0)) for x in bad)], None
+
+
+
+# ------------------------------------------------------------------ round 3: the commands (option parsing, readers, per-sample glue)
+def ed1(a, b):
+    """edit distance <= 1: what obialign.D1Or0 accepts (the edges of obiconsensus' sequence graph, --distance 1)"""
+    if a == b:
+        return True
+    if abs(len(a) - len(b)) > 1:
+        return False
+    i = 0
+    while i < min(len(a), len(b)) and a[i] == b[i]:
+        i += 1
+    if len(a) == len(b):
+        return a[i + 1:] == b[i + 1:]
+    return a[i + 1:] == b[i:] if len(a) > len(b) else a[i:] == b[i + 1:]
+
+
+def parse_fasta_json(text):
+    """obitools fasta with a JSON header -> list of (id, attributes, sequence)"""
+    recs = []
+    for blk in text.split("\n>"):
+        blk = blk.lstrip(">")
+        if not blk.strip():
+            continue
+        head, _, body = blk.partition("\n")
+        rid, _, js = head.partition(" ")
+        try:
+            attrs = json.loads(js) if js.strip() else {}
+        except ValueError:
+            attrs = {"_unparsed": js}
+        recs.append((rid, attrs, "".join(body.split())))
+    return recs
+
+
+def gen_cli_cons(rng):
+    """an obiconsensus data set: 2-4 samples, each a centre read with its one-error variants (substitutions, interior indels;
+    exactly 4 neighbours, exactly 5 - the tool builds a consensus above 4 -, fewer and more) and some two-error reads; a sample
+    made of two reads at one difference with equal counts (equal cluster weights); options of the command"""
+    recs = []
+    nvars = [4, 5] + [rng.choice([2, 3, 6, 8, 10]) for _ in range(rng.choice([0, 1, 2]))]
+    rng.shuffle(nvars)
+    for si, nvar in enumerate(nvars):
+        sample = "S%d" % si
+        L = rng.randrange(40, 90)
+        base = rand_seq(rng, L)
+        seen = {base}
+        mine = [("s%dc" % si, base, rng.choice([20, 50, 300]), sample)]
+        for j, i in enumerate(rng.sample(range(3, L - 3), nvar)):
+            r = rng.random()
+            t = base[:i] + (rng.choice([x for x in "acgt" if x != base[i]]) + base[i + 1:] if r < 0.7 else base[i + 1:] if r < 0.85 else rng.choice("acgt") + base[i:])
+            if t not in seen and all(not ed1(t, u[1]) for u in mine[1:]):
+                seen.add(t)
+                mine.append(("s%dv%d" % (si, j), t, rng.choice([1, 1, 2, 3, 5]), sample))
+        for j in range(rng.choice([0, 1, 2])):
+            src = rng.choice(mine[1:] or mine)[1]
+            i = rng.randrange(3, len(src) - 3)
+            t = src[:i] + rng.choice([x for x in "acgt" if x != src[i]]) + src[i + 1:]
+            if t not in seen and not ed1(t, base):
+                seen.add(t)
+                mine.append(("s%dw%d" % (si, j), t, 1, sample))
+        recs += mine
+    if rng.random() < 0.6:
+        a = rand_seq(rng, rng.randrange(30, 60))
+        i = rng.randrange(3, len(a) - 3)
+        n = rng.choice([1, 4, 30])
+        recs += [("tie0", a, n, "T"), ("tie1", a[:i] + rng.choice([x for x in "acgt" if x != a[i]]) + a[i + 1:], n, "T")]
+    if rng.random() < 0.6:
+        # records already dereplicated by obiuniq -m sample: a read belongs to several samples, with a count in each (merged_sample)
+        first = [r for r in recs if r[3] == "S0"]
+        shared = set(rng.sample(range(len(first)), rng.randrange(1, len(first) + 1)))
+        out = []
+        for r in recs:
+            if r[3] == "S0" and first.index(r) in shared:
+                extra = rng.choice([1, 2, 7])
+                out.append((r[0], r[1], r[2] + extra, {"S0": r[2], "X": extra}))
+            else:
+                out.append(r)
+        recs = out
+    opts = {}
+    if rng.random() < 0.4:
+        opts["k"] = rng.choice([5, 8, 12, 20])
+    if rng.random() < 0.3:
+        opts["cov"] = rng.choice([dict(num=1, e=1), dict(num=1, e=2), dict(num=3, e=2)])
+    if rng.random() < 0.4:
+        opts["cluster"] = True
+    if rng.random() < 0.3:
+        opts["save"] = True
+    return dict(recs=recs, opts=opts)
+
+
+def rec_samples(r):
+    """sample -> count of the read in that sample"""
+    return r[3] if isinstance(r[3], dict) else {r[3]: r[2]}
+
+
+def cli_cons_plan(inp):
+    """what obiconsensus must do with the data set: per output record either a copy of a read or the consensus of a pack of
+    reads (the read and its neighbours at one difference, inside its sample)"""
+    plan = []
+    by_sample = {}
+    for r in inp["recs"]:
+        for sm in rec_samples(r):
+            by_sample.setdefault(sm, []).append(r)
+    for sample, rs in by_sample.items():
+        nb = {i: [j for j in range(len(rs)) if j != i and ed1(rs[i][1], rs[j][1])] for i in range(len(rs))}
+        wt = [rec_samples(r)[sample] for r in rs]                 # weight of a read in THIS sample
+        sw = {i: wt[i] + sum(wt[j] for j in nb[i]) for i in nb}
+        for i in range(len(rs)):
+            pack = [rs[j] for j in nb[i]] + [rs[i]]
+            if inp["opts"].get("cluster"):
+                if all(not (sw[i] < sw[j]) for j in nb[i]):
+                    plan.append(dict(src=rs[i], pack=pack, mode="cluster", sample=sample, weight=wt[i]))
+            elif len(nb[i]) > 4:
+                plan.append(dict(src=rs[i], pack=pack, mode="denoise", sample=sample, weight=wt[i]))
+            else:
+                plan.append(dict(src=rs[i], pack=None, mode="denoise", sample=sample, weight=wt[i]))
+    return plan
+
+
+def cli_cons_case(inp, pl):
+    c = dict(kind="cons", seqs=[dict(s=r[1], count=r[2]) for r in pl["pack"]], tag="cli")
+    if inp["opts"].get("k"):
+        c["consk"] = inp["opts"]["k"]
+    if inp["opts"].get("cov"):
+        c["covs"] = [inp["opts"]["cov"]]
+    return c
+
+
+def run_cli_cons(ctx, bindir, inp, tag, one_cpu=False):
+    import tempfile, shutil
+    from vlib import sh
+    d = tempfile.mkdtemp(prefix="c19cli")
+    try:
+        with open(os.path.join(d, "in.fasta"), "w") as f:
+            for rid, sq, cnt, sample in inp["recs"]:
+                if isinstance(sample, dict):
+                    f.write('>%s {"count":%d,"merged_sample":%s}\n%s\n' % (rid, cnt, json.dumps(sample), sq))
+                else:
+                    f.write('>%s {"count":%d,"sample":"%s"}\n%s\n' % (rid, cnt, sample, sq))
+        o = inp["opts"]
+        args = (["--kmer-size", str(o["k"])] if o.get("k") else []) + (["--low-coverage", repr(o["cov"]["num"] / float(1 << o["cov"]["e"]))] if o.get("cov") else []) \
+            + (["--cluster"] if o.get("cluster") else []) + (["--save-graph", os.path.join(d, "graphs")] if o.get("save") else []) \
+            + (["--max-cpu", "1"] if one_cpu else [])
+        rc, out, err, dt = sh([os.path.join(bindir, "obiconsensus")] + args + [os.path.join(d, "in.fasta")], timeout=120)
+        saved = {}
+        if o.get("save") and os.path.isdir(os.path.join(d, "graphs")):
+            for fn in os.listdir(os.path.join(d, "graphs")):
+                if fn.endswith("_consensus.gml"):
+                    saved[fn] = open(os.path.join(d, "graphs", fn)).read()
+                else:
+                    saved[fn] = ""
+        return dict(rc=rc, args=args, records=parse_fasta_json(out) if rc == 0 else [], stderr=err[-400:] if rc else "", saved=saved)
+    finally:
+        shutil.rmtree(d, ignore_errors=True)
+
+
+def judge_cli_cons(inp, plan, run, cons_obs):
+    """the command's output against the plan; cons_obs[i] = in-process BuildConsensus of plan[i]'s pack (None for copies), itself
+    judged by the graph oracle and the Coq model further down"""
+    if run["rc"] != 0:
+        return ["obiconsensus %s exits %s: %s" % (" ".join(run["args"]), run["rc"], run["stderr"])]
+    fails = []
+    got = {}
+    for rid, attrs, sq in run["records"]:
+        got.setdefault((rid, str(attrs.get("sample"))), []).append((attrs, sq))
+    want = {}
+    for pl, ob in zip(plan, cons_obs):
+        rid, sq = pl["src"][0], pl["src"][1]
+        cnt, sample = pl["weight"], pl["sample"]
+        if pl["pack"] is None or len(pl["pack"]) == 1 or ob is None or ob.get("kind") != "cons" or ob.get("conserr"):
+            want[(rid, sample)] = dict(seq=sq, flag=False, count=cnt, sample=sample)
+        else:
+            want[(rid + "_consensus", sample)] = dict(seq=ob["consensus"], flag=True, count=cnt, sample=sample, k=ob["consk"], w=ob["consw"], graph=ob["consgraph"], maxw=ob["consmaxw"])
+    if sorted(got) != sorted(want) or any(len(v) != 1 for v in got.values()):
+        fails.append("records written (id, sample) %s, expected %s" % ([g for g in sorted(got) if g not in want or len(got[g]) != 1][:8] or sorted(got)[:8], [w for w in sorted(want) if w not in got][:8]))
+        return fails
+    for (rid, _sm), w in want.items():
+        attrs, sq = got[(rid, _sm)][0]
+        if sq != w["seq"] or attrs.get("obiconsensus_consensus") != w["flag"] or attrs.get("count", 1) != w["count"] or attrs.get("sample") != w["sample"] \
+                or attrs.get("seq_length") != len(w["seq"]):
+            fails.append("record %s: %s / consensus=%s count=%s sample=%s, expected %s / consensus=%s count=%d sample=%s" % (
+                rid, sq, attrs.get("obiconsensus_consensus"), attrs.get("count", 1), attrs.get("sample"), w["seq"], w["flag"], w["count"], w["sample"]))
+        elif w["flag"] and (attrs.get("obiconsensus_kmer_size"), attrs.get("obiconsensus_weight"), attrs.get("obiconsensus_full_graph_size"),
+                            attrs.get("obiconsensus_kmer_max_occur"), attrs.get("obiconsensus_seq_length")) != (w["k"], w["w"], w["graph"], w["maxw"], len(w["seq"])):
+            fails.append("record %s: attributes %s, the in-process consensus of the same reads gives k=%d weight=%d graph=%d max=%d" % (
+                rid, {a: b for a, b in attrs.items() if a.startswith("obiconsensus")}, w["k"], w["w"], w["graph"], w["maxw"]))
+        if w["flag"] and inp["opts"].get("save") and sum(1 for (r2, _), w2 in want.items() if r2 == rid and w2["flag"]) == 1:
+            # (a read that is the centre of a consensus in two samples writes the same file name twice: not judged)
+            fn = "%s_consensus.gml" % rid
+            pack = [dict(s=r[1], count=r[2]) for pl in plan if pl["src"][0] + "_consensus" == rid and pl["sample"] == _sm for r in pl["pack"]]
+            wt = expected_weights(w["k"], pack, "window")
+            if fn not in run["saved"]:
+                fails.append("--save-graph: %s not written (files: %s)" % (fn, sorted(run["saved"])[:6]))
+            elif 2 <= w["k"] <= 31:
+                fails += check_gml(run["saved"][fn], w["k"], wt, graph_of(set(wt), w["k"]), "--save-graph %s" % fn)
+    return fails[:5]
+
+
+def run_cli_ksim(ctx, bindir, c, x):
+    """obikmersimcount on the references / query of an index case: the match counts of q, rc(q) and (--self) of every reference"""
+    import tempfile, shutil
+    from vlib import sh
+    k = eff_k(c["k"], c["sparse"])
+    d = tempfile.mkdtemp(prefix="c19cli")
+    fails = []
+    try:
+        with open(os.path.join(d, "ref.fasta"), "w") as f:
+            for i, r in enumerate(c["refs"]):
+                f.write(">r%d\n%s\n" % (i, r))
+        with open(os.path.join(d, "q.fasta"), "w") as f:
+            f.write(">q\n%s\n>qrc\n%s\n" % (c["s"], rc(c["s"].lower())))
+        args = ["-r", os.path.join(d, "ref.fasta"), "-k", str(c["k"])] + (["--sparse"] if c["sparse"] else []) \
+            + (["-M", str(c["maxocc"])] if c.get("maxocc") not in (None, -1) else []) + (["-m", str(c["minshared"])] if c.get("minshared") is not None else [])
+        ms = 1 if c.get("minshared") is None else c["minshared"]
+        idx = expected_index(c, k)
+        for mode in ("query", "self"):
+            rc_, out, err, dt = sh([os.path.join(bindir, "obikmersimcount")] + args + ([os.path.join(d, "q.fasta")] if mode == "query" else ["--self"]), timeout=120)
+            if rc_ != 0:
+                fails.append("obikmersimcount %s (%s) exits %s: %s" % (" ".join(args[2:]), mode, rc_, err[-300:]))
+                continue
+            got = {rid: (a.get("obikmer_match_count"), a.get("obikmer_kmer_size"), a.get("obikmer_sparse_kmer")) for rid, a, _ in parse_fasta_json(out)}
+            if mode == "query":
+                exp = {"q": (x["q"]["nmatch"], k, c["sparse"]), "qrc": (x["qrc"]["nmatch"], k, c["sparse"])}
+                if not c["s"]:
+                    exp = {}
+            else:
+                exp = {}
+                for i, r in enumerate(c["refs"]):
+                    hits = Counter()
+                    for v, _ in expected_canon(k, c["sparse"], r):
+                        for j in idx.get(v, []):
+                            hits[j] += 1
+                    hits.pop(i, None)
+                    if r:
+                        exp["r%d" % i] = (sum(1 for j, n in hits.items() if n + 1 >= ms), k, c["sparse"])
+            if got != exp:
+                bad = [r for r in sorted(set(got) | set(exp)) if got.get(r) != exp.get(r)][:4]
+                fails.append("obikmersimcount %s (%s): %s" % (" ".join(args[2:]), mode, ", ".join("%s: (count, k, sparse) = %s, expected %s" % (r, got.get(r), exp.get(r)) for r in bad)))
+    finally:
+        shutil.rmtree(d, ignore_errors=True)
+    return fails
+
+
+def run_cli_kmatch(ctx, bindir, c, x):
+    """obikmermatch on the same files: it aligns the query with every candidate reference (alignment: properties C08/C09, not
+    judged here) and writes one record per accepted alignment; what comes from the index is judged: obikmer_match_count is the
+    number of candidates (Query + FilterMinCount) and obikmer_match_id names one of them. Returns (failures, records judged)."""
+    import tempfile, shutil
+    from vlib import sh
+    d = tempfile.mkdtemp(prefix="c19cli")
+    fails, judged = [], 0
+    try:
+        with open(os.path.join(d, "ref.fasta"), "w") as f:
+            for i, r in enumerate(c["refs"]):
+                f.write(">r%d\n%s\n" % (i, r))
+        with open(os.path.join(d, "q.fasta"), "w") as f:
+            f.write(">q\n%s\n>qrc\n%s\n" % (c["s"], rc(c["s"].lower())))
+        args = ["-r", os.path.join(d, "ref.fasta"), "-k", str(c["k"]), "--fasta-output"] + (["--sparse"] if c["sparse"] else []) \
+            + (["-M", str(c["maxocc"])] if c.get("maxocc") not in (None, -1) else []) + (["-m", str(c["minshared"])] if c.get("minshared") is not None else [])
+        rc_, out, err, dt = sh([os.path.join(bindir, "obikmermatch")] + args + [os.path.join(d, "q.fasta")], timeout=120)
+        if rc_ != 0:
+            return [], 0            # the alignment stage failed on this input: not this property's business
+        for rid, a, _ in parse_fasta_json(out):
+            ob = x["q"] if rid == "q" else x["qrc"] if rid == "qrc" else None
+            if ob is None or "obikmer_match_count" not in a:
+                continue
+            judged += 1
+            mid = str(a.get("obikmer_match_id", ""))
+            mid = mid[:-4] if mid.endswith("-rev") else mid
+            if a["obikmer_match_count"] != ob["nmatch"] or mid not in ["r%d" % i for i in ob["kept"]]:
+                fails.append("obikmermatch %s: record %s has match_count %s / match_id %s, the index gives %d candidates %s" % (
+                    " ".join(args[2:]), rid, a["obikmer_match_count"], a.get("obikmer_match_id"), ob["nmatch"], ["r%d" % i for i in ob["kept"]]))
+    finally:
+        shutil.rmtree(d, ignore_errors=True)
+    return fails[:3], judged
 
 
 # ------------------------------------------------------------------ generators
@@ -577,6 +1190,39 @@ CORPUS = [
     dict(kind="c4", s="acgt"),
     dict(kind="c4", s="acgtacgtnnacguu"),
     dict(kind="c4", s="a" * 300),
+    # ---- round 3: classes the random generators could not (or hardly) produce
+    # a cycle that no source node reaches: a fully periodic read beside ordinary reads (HasCycle must look at every node)
+    dict(kind="dbg", k=3, seqs=[dict(s="acgacgacg", count=1), dict(s="ttgcatg", count=2)], tag="r3:isolated-cycle"),
+    dict(kind="dbg", k=4, seqs=[dict(s="ttgcatgga", count=2), dict(s="acacacac", count=1)], tag="r3:isolated-cycle"),
+    dict(kind="dbg", k=5, seqs=[dict(s="gattacagatcc", count=3), dict(s="cgtcgtcgtcg", count=1), dict(s="gattacagttcc", count=1)], tag="r3:isolated-cycle"),
+    # homopolymer k-mers are their own successor (node 0 = poly-a: the 'no predecessor' value of prevNodes)
+    dict(kind="dbg", k=3, seqs=[dict(s="ccccc", count=1)], tag="r3:homopolymer"),
+    dict(kind="dbg", k=3, seqs=[dict(s="gcaaatg", count=2)], tag="r3:homopolymer"),
+    dict(kind="dbg", k=4, seqs=[dict(s="acgttttgca", count=1), dict(s="acgtttgca", count=4)], tag="r3:homopolymer"),
+    # an ambiguity code after the first k bases, followed by >= k more bases; two codes closer than k / further apart than k;
+    # a code inside the first k-mer followed by a long tail
+    dict(kind="dbg", k=3, seqs=[dict(s="acgtanccatgga", count=1)], tag="r3:iupac-late"),
+    dict(kind="dbg", k=3, seqs=[dict(s="acgtrayccatgga", count=2)], tag="r3:iupac-close"),
+    dict(kind="dbg", k=3, seqs=[dict(s="acgrtaccatgyga", count=1), dict(s="acgatacca", count=3)], tag="r3:iupac-far"),
+    dict(kind="dbg", k=4, seqs=[dict(s="anctgacctagga", count=1)], tag="r3:iupac-first-kmer"),
+    dict(kind="dbg", k=4, seqs=[dict(s="acgtgcatgnn", count=1)], tag="r3:iupac-end"),
+    # two branches with equal / adjacent support (the consensus flips on a difference of one)
+    dict(kind="dbg", k=3, seqs=[dict(s="aacgtcct", count=5), dict(s="aacgacct", count=5)], tag="r3:branch-tie"),
+    dict(kind="dbg", k=3, seqs=[dict(s="aacgtcct", count=5), dict(s="aacgacct", count=6)], tag="r3:branch-close"),
+    dict(kind="dbg", k=3, seqs=[dict(s="aacgtcct", count=6), dict(s="aacgacct", count=5)], tag="r3:branch-close"),
+    # bubble whose second arm reaches the join later with a better distance (re-opening of a visited node)
+    dict(kind="dbg", k=3, seqs=[dict(s="aacgt", count=2), dict(s="aaccgt", count=3)], tag="r3:bubble"),
+    # low-coverage ends around a well covered core (min_cov trimming on both sides), min_cov above 1
+    dict(kind="dbg", k=4, seqs=[dict(s="ttgacgtgcatcgg", count=1), dict(s="gacgtgcatc", count=9)],
+         covs=[dict(num=1, e=1), dict(num=1, e=0), dict(num=3, e=1)], tag="r3:low-coverage-ends"),
+    dict(kind="ksim", w=128, k=4, sparse=False, refs=["acgtgcatta", "ggggacgtgg"], s="acgtgcat", self=0, tag="fixed:query-reports-itself"),
+    dict(kind="ksim", w=128, k=4, sparse=False, refs=["acgtgcatta", "ggggacgtgg", "acgtgcatta"], s="acgtgcat", maxocc=2, minshared=2, tag="r3:maxoccurs"),
+    dict(kind="ksim", w=128, k=4, sparse=False, refs=["acacacacac", "acgtgcatta"], s="acacgtgc", maxocc=0, tag="r3:maxoccurs-0"),
+    dict(kind="ksim", w=128, k=5, sparse=True, refs=["acgtgcattagg", "ccggacgtgcat"], s="taatgcacgt", minshared=3, tag="r3:minshared"),
+    dict(kind="c4", s="acgtacgtnnacguu", s2="acgtacguu", tag="r3:common4"),
+    dict(kind="c4", s="acg", s2="acgt", tag="r3:common4"),
+    dict(kind="kmap", w=64, k=4, sparse=False, s="acgtgcatta", buf=True, tag="r3:buffer"),
+    dict(kind="kmap", w=128, k=5, sparse=True, s="acgtnacgtgcatta", buf=True, tag="r3:buffer"),
 ]
 
 
@@ -619,7 +1265,55 @@ def gen_dbg(rng, big=False):
         seqs.append(dict(s=s, count=rng.choice([1, 1, 1, 2, 3, 7, 100, 12345])))
     if nseq == 1 and rng.random() < 0.5:
         seqs[0]["count"] = 1
-    return dict(kind="dbg", k=k, seqs=seqs)
+    shape3 = None
+    r3 = rng.random()
+    if r3 < 0.08:
+        # a fully periodic read: its k-mers form a cycle that no source node reaches
+        unit = rand_seq(rng, rng.choice([1, 2, 3, 3, 4, 5]))
+        seqs.insert(rng.randrange(len(seqs) + 1), dict(s=(unit * (k + 4))[:k + rng.randrange(len(unit), 2 * len(unit) + 2)], count=rng.choice([1, 1, 2, 9])))
+        shape3 = "periodic-read"
+    elif r3 < 0.16 and namb == 0:
+        # ambiguity codes at chosen places: after the first k bases with >= k bases behind, two codes closer / further than k
+        t = rand_seq(rng, 3 * k + rng.randrange(2, 8))
+        pos = rng.choice([[k + rng.randrange(0, 3)], [k, k + rng.randrange(1, k)], [rng.randrange(0, k), 2 * k + 1], [rng.randrange(0, k)], [len(t) - 1]])
+        t = list(t)
+        for i in pos:
+            t[i] = rng.choice("ryswkm" * 3 + "bdhvn")
+        seqs.append(dict(s="".join(t), count=rng.choice([1, 2, 5])))
+        shape3 = "iupac-placed"
+    elif r3 < 0.26 and len(base) > k + 2:
+        # two branches with equal or adjacent support
+        i = rng.randrange(k, len(base) - 1) if len(base) - 1 > k else k
+        alt = base[:i] + rng.choice([x for x in "acgt" if x != base[i]]) + base[i + 1:]
+        n = rng.choice([1, 2, 5, 50])
+        seqs = [dict(s=base, count=n), dict(s=alt, count=n + rng.choice([0, 0, 1, -1]) or 1)] + seqs[:rng.choice([0, 0, 1, 2])]
+        shape3 = "branch-tie"
+    elif r3 < 0.32:
+        # homopolymer run of at least k bases
+        j = rng.randrange(0, len(base) + 1)
+        seqs.append(dict(s=base[:j] + rng.choice("acgt") * (k + rng.randrange(0, 3)) + base[j:], count=1))
+        shape3 = "homopolymer"
+    elif r3 < 0.40:
+        # a well covered core with thin ends (what min_cov trims)
+        a, b = rng.randrange(0, 4), rng.randrange(0, 4)
+        if len(base) - a - b >= k:
+            seqs = [dict(s=base, count=rng.choice([1, 2])), dict(s=base[a:len(base) - b], count=rng.choice([3, 8, 40]))] + seqs[:rng.choice([0, 1])]
+            shape3 = "thin-ends"
+    c = dict(kind="dbg", k=k, seqs=seqs, x=True)
+    if shape3:
+        c["shape"] = shape3
+    words = [enc(q["s"].lower().replace("u", "t")[i:i + k]) for q in seqs for i in range(0, max(0, len(q["s"]) - k + 1), 3)
+             if not any(ch in AMBIG for ch in q["s"].lower()[i:i + k])]
+    some = lambda: rng.choice(words) if words and rng.random() < 0.7 else rng.randrange(0, 4 ** k)
+    c["minw"] = rng.choice([0, 2, 2, 3, 5, 100])
+    c["lmax"] = rng.choice([1, 2, 3, 5, 10, 40])
+    c["covs"] = [rng.choice([dict(num=1, e=1), dict(num=1, e=2), dict(num=3, e=2), dict(num=1, e=0), dict(num=7, e=3), dict(num=1, e=4),
+                             dict(num=9, e=4), dict(num=0, e=0), dict(num=3, e=1), dict(num=2, e=0), dict(num=5, e=3)]) for _ in range(2)]
+    c["ham"] = [[str(some()), str(some())] for _ in range(2)] + [[str(some()), str(some() + (rng.randrange(1, 4) << (2 * k)))]]
+    c["probe"] = [str(some()), str(rng.randrange(0, 4 ** k)), "0"]
+    if sum(len(q["s"]) for q in seqs) <= 90 and rng.random() < 0.5:
+        c["gml"] = True
+    return c
 
 
 def gen_kmap(rng):
@@ -647,7 +1341,7 @@ def gen_kmap(rng):
         s = sprinkle(rng, s, 0.8, AMBIG + "u", maxn=rng.choice([1, 2, 4]))
     if rng.random() < 0.05:
         s = s.upper()
-    return dict(kind="kmap", w=w, k=k, sparse=sparse, s=s)
+    return dict(kind="kmap", w=w, k=k, sparse=sparse, s=s, buf=rng.random() < 0.5)
 
 
 def gen_c4(rng):
@@ -657,7 +1351,12 @@ def gen_c4(rng):
         s = sprinkle(rng, s, 0.8, AMBIG, maxn=3)
     if rng.random() < 0.1:
         s = s.upper()
-    return dict(kind="c4", s=s, reuse=rng.random() < 0.5)
+    s2 = s
+    for _ in range(rng.choice([0, 1, 2, 5])):
+        s2 = mutate(rng, s2)
+    if rng.random() < 0.3:
+        s2 = rand_seq(rng, rng.choice([0, 3, 4, 30, 200]), rng.choice(["acgt", "ac"]))
+    return dict(kind="c4", s=s, reuse=rng.random() < 0.5, s2=s2, x=True)
 
 
 def gen_cons(rng):
@@ -684,7 +1383,17 @@ def gen_cons(rng):
             t = sprinkle(rng, t, 1.0, alpha="ryswkmn", maxn=1)
         if len(t) >= 12:
             seqs.append(dict(s=t, count=rng.choice([1, 1, 1, 1, 2, 3, 5, 20])))
-    return dict(kind="cons", seqs=seqs)
+    c = dict(kind="cons", seqs=seqs)
+    r3 = rng.random()
+    if r3 < 0.25:
+        c["consk"] = rng.choice([3, 4, 5, 6, 8, 12, 20])        # --kmer-size: the tool raises it while the graph has a cycle
+    if rng.random() < 0.3:
+        c["covs"] = [rng.choice([dict(num=1, e=1), dict(num=1, e=2), dict(num=3, e=2), dict(num=1, e=0), dict(num=1, e=3)])]   # --low-coverage
+    if rng.random() < 0.2:
+        c["gml"] = True                                          # --save-graph
+    if rng.random() < 0.06:
+        c["seqs"] = seqs[:rng.choice([0, 1])]
+    return c
 
 
 def gen_ksim(rng):
@@ -712,12 +1421,36 @@ def gen_ksim(rng):
         q = mutate(rng, q)
     if rng.random() < 0.15:
         q = q[:len(q) // 2] + rc(q[:len(q) // 2])
-    return dict(kind="ksim", w=128, k=k, sparse=sparse, refs=refs, s=q)
+    c = dict(kind="ksim", w=128, k=k, sparse=sparse, refs=refs, s=q, x=True)
+    r3 = rng.random()
+    if r3 < 0.3:
+        # low-complexity / duplicated references: k-mers occurring several times in one reference and in several references
+        ke = eff_k(k, sparse)
+        unit = rand_seq(rng, rng.randrange(1, 6))
+        rep = (unit * (ke + 40))[:ke + rng.randrange(3, 30)]
+        c["refs"] = refs + [rep, base[:len(base) // 2] + rep, refs[0]]
+        if rng.random() < 0.5:
+            c["s"] = q[:len(q) // 2] + rep
+    if rng.random() < 0.6:
+        c["maxocc"] = rng.choice([-1, 0, 1, 2, 3, 5, 20])
+    if rng.random() < 0.6:
+        # --min-shared-kmers at, just below and just above the counts Query will report (FilterMinCount compares with <)
+        ke = eff_k(k, sparse)
+        counts = []
+        if 2 * ke <= 128:
+            idx = expected_index(c, ke)
+            hits = Counter(i for v, _ in expected_canon(ke, sparse, c["s"]) for i in idx.get(v, []))
+            counts = [n + 1 for n in hits.values()]
+        c["minshared"] = rng.choice(counts + [n + 1 for n in counts] + [max(0, n - 1) for n in counts] + [0, 1, 2, 50]) if rng.random() < 0.8 else rng.choice([0, 1, 2, 3, 10, 50])
+    if rng.random() < 0.4:
+        c["self"] = rng.randrange(len(c["refs"]))
+    return c
 
 
 def gen_cases(ctx, n):
     rng = ctx.rng
-    cases = [dict(c) for c in CORPUS]
+    cases = [dict(c, x=True) if c["kind"] in ("dbg", "c4", "ksim") else dict(c) for c in CORPUS]
+    cases.append(dict(kind="dbg", k=3, seqs=[dict(s="gtcaga", count=5), dict(s="ggcaga", count=1)], x=True, tag="r3:bubble-reopen"))
     for _ in range(n):
         cases.append(gen_dbg(rng))
     for _ in range(n):
@@ -730,7 +1463,7 @@ def gen_cases(ctx, n):
 
 
 def strip(c):
-    return {k: v for k, v in c.items() if k not in ("tag", "expect_cons")}
+    return {k: v for k, v in c.items() if k not in ("tag", "expect_cons", "shape")}
 
 
 # ------------------------------------------------------------------ Coq rendering
@@ -784,6 +1517,53 @@ def case_term(c, o, o_rc=None):
 
 
 IMPORTS = "From Coq Require Import NArith List Bool. Import ListNotations. Open Scope N_scope.\nFrom OBI.C19 Require Import Model Algo Corr."
+IMPORTS3 = IMPORTS + "\nFrom OBI.C19 Require Import Model3 Corr3."
+
+
+def cres_term(t):
+    kind, sq = t
+    return "CErr" if kind == "err" else "CPanic" if kind == "panic" else "(CSeq %s)" % nlist(sq.encode())
+
+
+def case3_term(c, o):
+    """round-3 observations as a Corr3.xcase (None: nothing to compare)"""
+    def opt_pair(v):
+        return "None" if v is None else "(Some (%s,%s))" % (v[0], v[1])
+    if c["kind"] == "dbg":
+        x = o.get("x")
+        if x is None or len(o.get("nodes") or []) > ALGO_NODES:
+            return None
+        seqs = "[" + ";".join("(%s,%d)" % (seq_term(q["s"]), q["count"]) for q in c["seqs"]) + "]"
+        spec = "None" if x["speclen"] == -1 else "(Some %d)" % x["speclen"]
+        spectrum = "[" + ";".join("(%d,%d)" % (a, b) for a, b in (x.get("spectrum") or [] if x["speclen"] != -1 else [])) + "]"
+        prevl = "[" + ";".join(nlist(sorted(int(v) for v in (n["prevs"] or []))) for n in x.get("nodes") or []) + "]"
+        maxn = "[" + ";".join(opt_pair(n["maxnext"]) for n in x.get("nodes") or []) + "]"
+        greedy = "(Some %s)" % nlist(x.get("maxpath") or []) if x.get("greedy") else "None"
+        minw = c.get("minw", 0)
+        filt = "[" + ";".join("(%s,%s)" % (a, b) for a, b in (x.get("filtered") or [])) + "]"
+        path = "PPanic" if o["pathpanic"] else "PNil" if o["pathnil"] else "(PSome %s)" % nlist(o.get("path") or [])
+        covs = "[" + ";".join("(%d,%d,%s)" % (cv["num"], cv["e"], cres_term(consx(got))) for cv, got in zip(c.get("covs") or [], x.get("covs") or [])) + "]"
+        ham = "[" + ";".join("(%s,%s,%d)" % (a, b, h) for (a, b), h in zip(c.get("ham") or [], x.get("ham") or [])) + "]"
+        return "X3Graph %d %s %s %s %s %s %s %s %d %s %s %s %s %s" % (c["k"], seqs, spec, spectrum, prevl, maxn, opt_pair(x.get("maxhead")), greedy, minw, filt,
+                                                                    "true" if x.get("filteredcyc") else "false", path, covs, ham)
+    if c["kind"] == "ksim":
+        x = o.get("ksx")
+        if x is None or 2 * eff_k(c["k"], c["sparse"]) > 128:
+            return None
+        mo = c.get("maxocc")
+        ms = c.get("minshared")
+        opt = lambda l: "[" + ";".join("None" if v < 0 else "(Some %d)" % v for v in l) + "]"
+        return "X3Query 128 %d %s %s %s %d %s %d %s %s %d %d" % (
+            c["k"], "true" if c["sparse"] else "false", "[" + ";".join(seq_term(r) for r in c["refs"]) + "]",
+            "None" if mo is None or mo < 0 else "(Some %d)" % mo, 1 if ms is None else ms, seq_term(c["s"]),
+            x["idxlen"], opt(x["q"]["match"]), opt(x["qrc"]["match"]), x["q"]["nmatch"], x["qrc"]["nmatch"])
+    if c["kind"] == "c4":
+        x = o.get("c4x")
+        if x is None:
+            return None
+        return "X3C4 %s %s %s %d %d %d" % (seq_term(c["s"]), seq_term(c.get("s2", "")), "[" + ";".join("(%d,%s)" % (l[0], nlist(l[1:])) for l in x.get("index") or []) + "]",
+                                          x["sum"], x["sum2"], x["common"])
+    return None
 
 KNOWN_TEXT = {
     "count4-uint16-wrap": "Count4Mer tables are uint16: a 4-mer occurring more than 65535 times in one sequence wraps (poly-a of 65539 bases counts 0)",
@@ -798,7 +1578,11 @@ def evaluate(ctx, cases, broken, label, corr=True):
         flat.append(strip(c))
         if c["kind"] == "kmap":
             flat.append(dict(strip(c), s=rc(c["s"].lower())))
+    import time
+    te = time.time()
     obs_flat = ctx.vh_robust("c19", flat, timeout=600, one_timeout=30)
+    ctx.cov.setdefault("evaluate_wall_s", {})[label + ": harness"] = round(time.time() - te, 1)
+    te = time.time()
     obs = [(obs_flat[i], obs_flat[i + 1] if cases[j]["kind"] == "kmap" else None) for j, i in enumerate(where)]
     nviol = 0
     oracle_bad = set()
@@ -843,7 +1627,11 @@ def evaluate(ctx, cases, broken, label, corr=True):
                 terms.append("C2Kstr %d %d %s [%s]" % (cases[i]["w"], cases[i]["k"], "true" if cases[i]["sparse"] else "false",
                                                       ";".join("(%d,%s)" % (v, nlist(st.encode())) for v, st in pairs)))
                 owner.append(i)
+        ctx.cov.setdefault("evaluate_wall_s", {})[label + ": oracle"] = round(time.time() - te, 1)
+        te = time.time()
         bad, err = ctx.correspond(label, IMPORTS, terms, fn="mismatches2", shard=25 if len(terms) < 2000 else 150)
+        ctx.cov.setdefault("evaluate_wall_s", {})[label + ": Coq (rounds 1-2)"] = round(time.time() - te, 1)
+        te = time.time()
         if bad is None:
             broken.append(dict(kind="correspondence", detail=err))
         else:
@@ -861,6 +1649,23 @@ def evaluate(ctx, cases, broken, label, corr=True):
                     if ties:
                         ctx.cov["path_differs_from_transcription_same_weight"] = ctx.cov.get("path_differs_from_transcription_same_weight", 0) + len(ties)
                     mism = [i for i in mism if i not in ties]
+        # round 3: the observations of c19r3.go against Model3.v (graph cases whose path is a tie-break difference included: the
+        # coverage trimming is evaluated on the OBSERVED heaviest path)
+        terms3, owner3 = [], []
+        for i, (o, o2) in enumerate(obs):
+            if o["kind"] == "crash" or len(cases[i].get("s", "")) > 5000 or cases[i]["kind"] == "kmap":
+                continue
+            t3 = case3_term(cases[i], o)
+            if t3 is not None:
+                terms3.append(t3)
+                owner3.append(i)
+        if terms3:
+            bad3, err3 = ctx.correspond(label + "_r3", IMPORTS3, terms3, fn="mismatches3", shard=25 if len(terms3) < 2000 else 100)
+            ctx.cov.setdefault("evaluate_wall_s", {})[label + ": Coq (round 3)"] = round(time.time() - te, 1)
+            if bad3 is None:
+                broken.append(dict(kind="correspondence", detail=err3))
+            else:
+                mism = sorted(set(mism) | {owner3[j] for j in bad3})
     return obs, mism, nviol
 
 
@@ -873,6 +1678,14 @@ def nontrivial(c):
 
 
 def run(ctx, broken):
+    import time
+    t0 = [time.time()]
+    phases = {}
+
+    def lap(name):
+        phases[name] = round(phases.get(name, 0) + time.time() - t0[0], 1)
+        t0[0] = time.time()
+        ctx.cov["phase_wall_s"] = dict(phases)
     t = getattr(ctx, "_c19_tables", None) or dump_tables(ctx)
     replay_tables(ctx, t)
     ctx.cov["regenerated_tables"] = "iupac %d letters, revcompnuc %d, decode %d, __single_base_code__ %d entries; %d table obligations failing" % (
@@ -894,21 +1707,89 @@ def run(ctx, broken):
         ctx.cov["exhaustive_scope"] = "all %d sequences over {a,c,g,t} of length 1..6: index dense k=2 and sparse k=3 on both strands, graph of the single sequence k=2/3" % nex
     # obiconsensus call path: the tool estimates k (longest repeat inside a read + 1, raised while HasCycle), counts come from the
     # count attribute; the reads then go through the graph checks (oracle + Coq model of the algorithms) at the k the tool chose
-    cons = [gen_cons(ctx.rng) for _ in range(40 if ctx.quick else 500)]
+    cons = [dict(kind="cons", seqs=[]), dict(kind="cons", seqs=[dict(s="acgtgcattagcatcga", count=3)]),
+            dict(kind="cons", seqs=[dict(s="ACGTGCATTAGCATCGA", count=1)], consk=5, gml=True)]
+    cons += [gen_cons(ctx.rng) for _ in range(40 if ctx.quick else 500)]
+    # the commands themselves (option parsing, file readers, per-sample packs, attributes): obiconsensus data sets; every pack of reads
+    # the command must hand to BuildConsensus also goes through the in-process path below (and from there through the graph oracle
+    # and the Coq model), and the command's records are compared with it
+    lap("tables + case generation")
+    bindir, cerr = ctx.build_cmds(["obiconsensus", "obikmersimcount", "obikmermatch"])
+    if bindir is None:
+        broken.append(dict(kind="build", detail=cerr))
+    lap("build of the three commands")
+    cli_sets = [gen_cli_cons(ctx.rng) for _ in range(6 if ctx.quick else 60)] if bindir else []
+    for n, inp in enumerate(cli_sets):            # both modes of the command in every run
+        inp["opts"].pop("cluster", None)
+        if n % 2:
+            inp["opts"]["cluster"] = True
+    cli_plans = []
+    for inp in cli_sets:
+        plan = cli_cons_plan(inp)
+        for pl in plan:
+            if pl["pack"] is not None and len(pl["pack"]) >= 2:
+                pl["cons_index"] = len(cons)
+                cons.append(cli_cons_case(inp, pl))
+        cli_plans.append(plan)
     obs_c = ctx.vh_robust("c19", cons, timeout=900, one_timeout=60)
+    lap("in-process BuildConsensus batch")
+    cli_stat = Counter()
+    for n, (inp, plan) in enumerate(zip(cli_sets, cli_plans)):
+        # (before the repair `fix: GraphBuffer.Close waits ...` the command read its sequence graph while the last edge was still being
+        # added: a neighbour of the centre read was missing from its pack in most runs under load.) A failure is confirmed by a second run.
+        for attempt in range(2):
+            run_ = run_cli_cons(ctx, bindir, inp, n, one_cpu=attempt > 0)
+            fl = judge_cli_cons(inp, plan, run_, [obs_c[pl["cons_index"]] if "cons_index" in pl else None for pl in plan])
+            if not fl:
+                break
+            cli_stat["obiconsensus runs repeated after a failing comparison"] += 1
+        cli_stat["obiconsensus %s" % (" ".join(a for a in run_["args"] if a.startswith("--")) or "(defaults)")] += 1
+        cli_stat["obiconsensus records judged"] += len(plan)
+        cli_stat["obiconsensus consensus calls replayed in-process"] += sum(1 for pl in plan if "cons_index" in pl)
+        if fl:
+            cli_stat["obiconsensus failures"] += 1
+            if cli_stat["obiconsensus failures"] <= 3:
+                ctx.violation("cli_obiconsensus_%d" % n, dict(property="C19", kind="command", case=dict(kind="cli-cons", recs=inp["recs"], opts=inp["opts"]),
+                                                              failures=fl, implementation=dict(args=run_["args"], rc=run_["rc"], records=run_["records"][:40])))
     tool = Counter()
     for i, (c, o) in enumerate(zip(cons, obs_c)):
-        if o["kind"] != "cons":
+        if o["kind"] != "cons" or o.get("conspanic"):
             tool["crash"] += 1
             if tool["crash"] <= 2:
-                ctx.violation("cons_crash_%d" % i, dict(property="C19", kind="direct-oracle", case=c, failures=["obiconsensus.BuildConsensus crashed or hung"], implementation=o))
+                ctx.violation("cons_crash_%d" % i, dict(property="C19", kind="direct-oracle", case=c, failures=["obiconsensus.BuildConsensus crashed, panicked or hung"], implementation=o))
+            continue
+        opt = "/".join(["k=%s" % (c.get("consk") or "auto")] + (["low-coverage"] if c.get("covs") else []) + (["save-graph"] if c.get("gml") else []))
+        tool["options " + opt] += 1
+        glue = []
+        if len(c["seqs"]) == 0:
+            tool["no read"] += 1
+            if not o["conserr"] or o.get("err") != "no sequence provided":
+                glue.append("BuildConsensus of no read: %r / %r, expected the error 'no sequence provided'" % (o.get("consensus"), o.get("err")))
+        elif len(c["seqs"]) == 1:
+            tool["single read"] += 1
+            if o["conserr"] or o["consensus"] != c["seqs"][0]["s"].lower() or o["consflag"] or o["consk"]:
+                glue.append("BuildConsensus of a single read must return it unchanged with obiconsensus_consensus=false: %r flag=%s" % (o.get("consensus"), o.get("consflag")))
+        if c.get("gml") and len(c["seqs"]) >= 2:
+            # --save-graph: <id>_consensus.fasta holds the reads handed to the consensus (in order, with their counts)
+            recs = [r for r in (o.get("savedfa") or "").split(">") if r.strip()]
+            got = [("".join(r.split("\n")[1:]), r.split("\n")[0]) for r in recs]
+            exp = [q["s"].lower() for q in c["seqs"]]
+            if [g for g, _ in got] != exp or any(q["count"] != 1 and ('"count":%d' % q["count"]) not in h.replace(" ", "") for q, (_, h) in zip(c["seqs"], got)):
+                glue.append("--save-graph: the fasta file holds %d records, expected the %d reads with their counts" % (len(got), len(exp)))
+            if not o["conserr"] and not o.get("savedgml"):
+                glue.append("--save-graph: no .gml file written")
+        if glue:
+            tool["glue failures"] += 1
+            if tool["glue failures"] <= 3:
+                ctx.violation("cons_glue_%d" % i, dict(property="C19", kind="direct-oracle", case=c, implementation=o, failures=glue))
+        if len(c["seqs"]) < 2:
             continue
         if o["conserr"]:
             tool["no consensus (%s)" % o.get("err", "")] += 1
             continue
         k = o["consk"]
-        # the k chosen by the tool: the smallest k >= (longest repeat inside one read) + 1 whose graph is acyclic
-        k0 = 1 + max(longest_repeat(q["s"].lower()) for q in c["seqs"])
+        # the k chosen by the tool: the smallest k >= (--kmer-size, or longest repeat inside one read + 1) whose graph is acyclic
+        k0 = c.get("consk") or 1 + max(longest_repeat(q["s"].lower()) for q in c["seqs"])
         kk = k0
         while kk < 64 and has_cycle(graph_of(set(expected_weights(kk, c["seqs"], "prefix")), kk)):
             kk += 1
@@ -921,10 +1802,29 @@ def run(ctx, broken):
             tool["k outside 2..31"] += 1
             continue
         tool["k=%d%s" % (k, "" if k == k0 else " (raised from %d)" % k0)] += 1
-        cases.append(dict(kind="dbg", k=k, seqs=c["seqs"], expect_cons=dict(consensus=o["consensus"], consgraph=o["consgraph"],
-                                                                           consmaxw=o["consmaxw"], consw=o["consw"])))
+        cases.append(dict(kind="dbg", k=k, seqs=c["seqs"], x=True, covs=c.get("covs") or [],
+                          expect_cons=dict(consensus=o["consensus"], consgraph=o["consgraph"], consmaxw=o["consmaxw"], consw=o["consw"],
+                                           conslen=o.get("conslen"), consfgraph=o.get("consfgraph"), cov=(c.get("covs") or [None])[0],
+                                           savedgml=o.get("savedgml") if c.get("gml") else None)))
     ctx.cov["obiconsensus_call_path"] = dict(tool)
+    lap("obiconsensus command runs + judgement")
     obs, mism, nviol = evaluate(ctx, cases, broken, "main")
+    lap("harness + oracle + Coq correspondence of the main batch")
+    # obikmersimcount on index cases judged above: the command's match counts against the in-process Query / FilterMinCount
+    if bindir:
+        todo = [(c, o) for c, (o, o2) in zip(cases, obs) if c["kind"] == "ksim" and o.get("ksx") and 2 * eff_k(c["k"], c["sparse"]) <= 128 and c["refs"]]
+        for n, (c, o) in enumerate(todo[:12 if ctx.quick else 150]):
+            fl = run_cli_ksim(ctx, bindir, c, o["ksx"])
+            fl2, nj = run_cli_kmatch(ctx, bindir, c, o["ksx"])
+            fl += fl2
+            cli_stat["obikmermatch records judged (candidate count and id)"] += nj
+            cli_stat["obikmersimcount (query + --self)%s%s%s" % (" --sparse" if c["sparse"] else "", " -M" if c.get("maxocc") is not None else "", " -m" if c.get("minshared") is not None else "")] += 1
+            if fl:
+                cli_stat["obikmersimcount failures"] += 1
+                if cli_stat["obikmersimcount failures"] <= 3:
+                    ctx.violation("cli_obikmersimcount_%d" % n, dict(property="C19", kind="command", case=strip(c), failures=fl, implementation=o))
+    ctx.cov["commands"] = dict(cli_stat)
+    lap("obikmersimcount / obikmermatch command runs")
     ctx.cov["evaluations"] = len(cases) + sum(1 for c in cases if c["kind"] == "kmap")
     ctx.cov["distinct_nontrivial"] = len({json.dumps(strip(c), sort_keys=True) for c in cases if nontrivial(c)})
     ctx.cov["rule"] = ("non-trivial = graph case with a sequence of length >= k / index case with a sequence longer than the effective k / "
@@ -941,11 +1841,52 @@ def run(ctx, broken):
             dist["kmap/%d/%s/%s" % (c["w"], "sparse" if c["sparse"] else "dense", "2k=w" if 2 * eff_k(c["k"], c["sparse"]) == c["w"] else "2k<w")] += 1
         else:
             dist["c4/len%s" % ("<4" if len(c["s"]) < 4 else ">=4")] += 1
+    # round 3: the input classes added to the corpus and to the random stream
+    cls = Counter()
+    for c, (o, o2) in zip(cases, obs):
+        t = c.get("tag", "")
+        if t.startswith("r3:") or t.startswith("fixed:"):
+            cls["corpus/" + t] += 1
+        if c["kind"] == "dbg":
+            if c.get("shape"):
+                cls["dbg/shape/" + c["shape"]] += 1
+            x = o.get("x") or {}
+            if x:
+                cls["dbg/extra-observations"] += 1
+                if c.get("minw"):
+                    cls["dbg/FilterMinWeight/%s" % ("nothing removed" if x.get("filteredlen") == len(o.get("nodes") or []) else "all removed" if not x.get("filteredlen") else "some removed")] += 1
+                for cv, got in zip(c.get("covs") or [], x.get("covs") or []):
+                    r = cv["num"] / float(1 << cv["e"])
+                    kind = "panic" if got.get("panic") else "error" if got.get("err") else "trimmed" if len(got.get("seq") or "") < len(o.get("consensus") or "") else "untrimmed"
+                    cls["dbg/min_cov %s/%s" % ("= 0" if r == 0 else "<= 1" if r <= 1 else "> 1", kind)] += 1
+                if c.get("gml"):
+                    cls["dbg/Gml+WriteGml"] += 1
+                if x.get("greedy"):
+                    pw = sum(n["w"] for n in o.get("nodes") or [] if n["kmer"] in set(x.get("maxpath") or []))
+                    hw = sum(n["w"] for n in o.get("nodes") or [] if n["kmer"] in set(o.get("path") or []))
+                    cls["dbg/greedy walk %s the heaviest" % ("lighter than" if pw < hw else "as heavy as")] += 1
+                for v, pn in zip(c.get("probe") or [], x.get("probenext") or []):
+                    cls["dbg/Nexts of a k-mer %s the graph" % ("outside" if pn else "inside")] += 1
+            if "expect_cons" in c:
+                cls["dbg/from obiconsensus%s%s" % ("/low-coverage" if c["expect_cons"].get("cov") else "", "/save-graph" if c["expect_cons"].get("savedgml") else "")] += 1
+        elif c["kind"] == "ksim":
+            cls["ksim/maxoccurs %s" % ("none" if c.get("maxocc") in (None, -1) else c["maxocc"] if c["maxocc"] < 3 else ">=3")] += 1
+            x = o.get("ksx") or {}
+            if x and c.get("minshared") is not None:
+                m = [n for n in x["q"]["match"] if n >= 0]
+                cls["ksim/minshared %s" % ("= a reported count" if c["minshared"] in m else "= a count + 1" if c["minshared"] - 1 in m else "= a count - 1" if c["minshared"] + 1 in m else "other")] += 1
+            if c.get("self") is not None:
+                cls["ksim/query = a reference object"] += 1
+        elif c["kind"] == "kmap" and c.get("buf"):
+            cls["kmap/caller's buffer"] += 1
+        elif c["kind"] == "c4" and c.get("x"):
+            cls["c4/second sequence %s" % ("identical" if c.get("s2") == c["s"] else "related or random")] += 1
     ctx.cov["distribution"] = dict(dist)
+    ctx.cov["input_classes_round3"] = dict(cls)
     ctx.samples = [dict(case=strip(c), implementation=o) for c, (o, o2) in list(zip(cases, obs))[:2] + list(zip(cases, obs))[-2:]]
     ctx.cov["model_vs_impl_mismatches"] = len(mism)
     if mism and not ctx.violations:
-        more = gen_cases(ctx, 3000)
+        more = gen_cases(ctx, int(os.environ.get("VERIF_C19_SEARCH", "3000")))
         evaluate(ctx, more, [], "search", corr=False)
         if not ctx.violations:
             i = mism[0]
@@ -961,6 +1902,32 @@ def replay(ctx, rp):
         print("replay: obikmer tables of the current build, symbol %r:" % rp.get("symbol"),
               [w for w, s in bad if s == rp.get("symbol")] or "obligations hold", "| all failing symbols:", sorted({s for _, s in bad}))
     c = rp["case"]
+    if rp.get("kind") == "command":
+        bindir, cerr = ctx.build_cmds(["obiconsensus", "obikmersimcount", "obikmermatch"])
+        if c.get("kind") == "cli-cons":
+            inp = dict(recs=[tuple(r) for r in c["recs"]], opts=c["opts"])
+            plan = cli_cons_plan(inp)
+            cons = []
+            for pl in plan:
+                if pl["pack"] is not None and len(pl["pack"]) >= 2:
+                    pl["cons_index"] = len(cons)
+                    cons.append(cli_cons_case(inp, pl))
+            obs_c = ctx.vh_robust("c19", cons, timeout=300, one_timeout=60)
+            # a failure of the command may depend on the scheduling (the repaired finding was a race): 20 runs, every outcome reported
+            nfail, first = 0, None
+            for attempt in range(20):
+                run_ = run_cli_cons(ctx, bindir, inp, 0, one_cpu=attempt % 2 == 1)
+                fl = judge_cli_cons(inp, plan, run_, [obs_c[pl["cons_index"]] if "cons_index" in pl else None for pl in plan])
+                if fl:
+                    nfail += 1
+                    first = first or fl
+            print("replay: obiconsensus %s -> %d of 20 runs differ from the in-process consensus of the same reads | %s" % (
+                " ".join(a for a in run_["args"] if not a.startswith("/")), nfail, ("VIOLATION " + "; ".join(first)) if nfail else "ok"))
+            return
+        obs, mism, nviol = evaluate(ctx, [c], [], "replay")
+        fl = run_cli_ksim(ctx, bindir, c, obs[0][0].get("ksx") or {}) if obs[0][0].get("ksx") else ["no in-process observation"]
+        print("replay: obikmersimcount on", json.dumps(c)[:300], "|", ("VIOLATION " + "; ".join(fl)) if fl else "ok")
+        return
     obs, mism, nviol = evaluate(ctx, [c], [], "replay")
     print("replay:", json.dumps(c), "->", json.dumps(obs[0][0])[:600], "| oracle:", "VIOLATION" if ctx.violations else "ok",
           "| model:", "mismatch" if mism else "agrees")
